@@ -589,6 +589,16 @@ func Build(w World, p Params) *Concrete {
 		tcb.Levels = []PlatLevel{aboveUp}
 	case "laterMatch":
 		tcb.Levels = []PlatLevel{above, good, lower}
+	case "laterMatchTdx": // the earlier level is satisfied on SGX components and PCE SVN and fails only on a TDX component
+		e := good
+		e.Tdx[2+rng.Intn(14)] = 255
+		e.Status = "Revoked"
+		tcb.Levels = []PlatLevel{e, good, lower}
+	case "laterMatchPce": // the earlier level fails only on the PCE SVN
+		e := good
+		e.Pce = int(sgx.PCESvn) + 1
+		e.Status = "Revoked"
+		tcb.Levels = []PlatLevel{e, good, lower}
 	case "fmspcUpper":
 		tcb.Fmspc = strings.ToUpper(c.FMSPC)
 	default:
@@ -682,6 +692,23 @@ func Build(w World, p Params) *Concrete {
 		}
 		qe.MiscMask, qe.Misc = hex.EncodeToString(mm), hex.EncodeToString(and(misc, mm))
 		qe.AttrsMask, qe.Attrs = hex.EncodeToString(am), hex.EncodeToString(and(qattr, am))
+	case "maskZero": // all-zero masks and all-zero values: every report matches
+		qe.MiscMask, qe.Misc = "00000000", "00000000"
+		qe.AttrsMask, qe.Attrs = strings.Repeat("00", 16), strings.Repeat("00", 16)
+	case "valueOutsideMask": // the identity's value has a bit that its own mask clears: no report can equal it after masking
+		if rng.Intn(2) == 0 {
+			mm := append([]byte{}, mmask...)
+			mm[1] &^= 0x10
+			b := and(misc, mm)
+			b[1] |= 0x10
+			qe.MiscMask, qe.Misc = hex.EncodeToString(mm), hex.EncodeToString(b)
+		} else {
+			am := append([]byte{}, amask...)
+			am[5] &^= 0x04
+			b := and(qattr, am)
+			b[5] |= 0x04
+			qe.AttrsMask, qe.Attrs = hex.EncodeToString(am), hex.EncodeToString(b)
+		}
 	case "misc":
 		b := and(misc, mmask)
 		b[0] ^= 1
@@ -1029,4 +1056,22 @@ func dropKey(obj []byte, key string) []byte {
 		panic(err)
 	}
 	return b
+}
+
+// SetTcbInfo replaces the served TCB Info by an honestly signed document with the given content.
+func (c *Concrete) SetTcbInfo(spec TcbInfoSpec) {
+	c.TcbSpec = spec
+	raw := NonCanonical(spec.Member())
+	body := Wrap([][2]string{{"tcbInfo", string(raw)}, {"signature", SigHex(c.TcbSigner.Key, raw)}})
+	c.TcbBody, c.TcbMember = body, raw
+	c.Getter.Set(c.TcbURL, Response{Header: map[string][]string{HdrTcbInfo: {IssuerChainHeader(c.TcbSigner.DER, c.HdrRootDER)}}, Body: body})
+}
+
+// SetQeIdentity replaces the served QE Identity by an honestly signed document with the given content.
+func (c *Concrete) SetQeIdentity(spec QeIdentitySpec) {
+	c.QeSpec = spec
+	raw := NonCanonical(spec.Member())
+	body := Wrap([][2]string{{"enclaveIdentity", string(raw)}, {"signature", SigHex(c.QeSigner.Key, raw)}})
+	c.QeBody, c.QeMember = body, raw
+	c.Getter.Set(c.QeURL, Response{Header: map[string][]string{HdrQeID: {IssuerChainHeader(c.QeSigner.DER, c.HdrRootDER)}}, Body: body})
 }
